@@ -17,6 +17,9 @@ import OdakProofs.Lemmas.GenPolar
   * the grid kernels are equal at `α = ℝ` (the instantiation the theorems are about): the generated text writes the
     literals `1`, `2` as `Num.ofNat 1`, `Num.ofNat 2` and `(FX * λ)²` where the hand model has `(λ * FX)²`, so the
     proofs normalise numerals and, where needed, ring-normalise. -/
+set_option linter.unreachableTactic false
+set_option linter.unusedTactic false
+
 namespace Odak
 open Gen
 
@@ -26,12 +29,14 @@ open Gen
 theorem gen_asKernelT_eq (n m : Nat) (dx lam z : ℝ) : asKernelT n m dx lam z = asKernel n m dx lam z := by
   apply Grid.ext_get; intro i j
   simp only [asKernelT, asKernel, Grid.get_ofFn, asPhase, freq, asRadicand, num_two, num_ofNat, Nat.cast_one, Nat.cast_ofNat]
+    <;> ring_nf
 
 /-- torch `get_transfer_function_fresnel_kernel` is `tfKernel` with `k = wavenumber λ` -/
 theorem gen_tfKernelT_eq (n m : Nat) (dx lam z : ℝ) : tfKernelT n m dx lam z = tfKernel n m dx lam (wavenumber lam) z := by
   apply Grid.ext_get; intro i j
   simp only [tfKernelT, tfKernel, Grid.get_ofFn, tfPhase, freq, gen_wavenumberT_eq, num_two, num_ofNat, Nat.cast_one,
     Nat.cast_ofNat]
+    <;> ring_nf
 
 /-- torch `get_band_limited_angular_spectrum_kernel` is `blKernel` (same shifted grid, same mask pairing, same phase) -/
 theorem gen_blKernelT_eq (n m : Nat) (dx lam z : ℝ) : blKernelT n m dx lam z = blKernel n m dx lam z := by
@@ -50,6 +55,7 @@ theorem gen_asKernelN_eq (n m : Nat) (dx lam k z : ℝ) : asKernelN n m dx lam k
 theorem gen_tfKernelN_eq (n m : Nat) (dx lam k z : ℝ) : tfKernelN n m dx lam k z = tfKernel n m dx lam k z := by
   apply Grid.ext_get; intro i j
   simp only [tfKernelN, tfKernel, Grid.get_ofFn, tfPhase, freq, num_two, num_ofNat, Nat.cast_one, Nat.cast_ofNat]
+    <;> ring_nf
 
 /-- the kernel built inside NumPy `band_limited_angular_spectrum` is `npBlKernel` -/
 theorem gen_blKernelN_eq (n m : Nat) (dx lam k z : ℝ) : blKernelN n m dx lam k z = npBlKernel n m dx lam k z := by
@@ -62,11 +68,13 @@ theorem gen_blKernelN_eq (n m : Nat) (dx lam k z : ℝ) : blKernelN n m dx lam k
 theorem gen_irKernelN_eq (n m : Nat) (dx lam k z : ℝ) : irKernelN n m dx lam k z = npIrKernel n m dx lam k z := by
   apply Grid.ext_get; intro i j
   simp only [irKernelN, npIrKernel, Grid.get_ofFn, num_two, num_ofNat, Nat.cast_one, Nat.cast_ofNat]
+    <;> ring_nf
 
 /-- the spatial part `h` of torch `get_impulse_response_fresnel_kernel` (scale = 1; the four aperture-sample loops) is `irSpatial` -/
 theorem gen_irSpatialT_eq (n m : Nat) (dx lam z : ℝ) (s0 s1 s2 s3 : Nat) :
     irSpatialT n m dx lam z s0 s1 s2 s3 = irSpatial n m dx lam z s0 s1 s2 s3 := by
   apply Grid.ext_get; intro i j
   simp only [irSpatialT, irSpatial, Grid.get_ofFn, gen_wavenumberT_eq, num_two, num_ofNat, Nat.cast_one, Nat.cast_ofNat]
+    <;> ring_nf
 
 end Odak
